@@ -13,7 +13,7 @@
 #define NT 16
 typedef struct { const char * bytes; size_t len; int items; } emis_t;
 static const emis_t emis[NT] = {
-    {"7", 1, 1}, {"#HFF", 4, 1}, {"-5", 2, 1}, {"1.5", 3, 1}, {"1", 1, 1}, {"\"a\"\"b\"", 6, 1}, {"XY", 2, 1}, {"#13a;b", 6, 1},
+    {"7", 1, 1}, {"#HFF", 4, 1}, {"-5", 2, 1}, {"1.5", 3, 1}, {"1", 1, 1}, {"\"a\"\"b\"", 6, 1}, {"XY", 2, 1}, {"#13a;\n", 6, 1},
     {"#13abc", 6, 1}, {"1,-2,3", 6, 3}, {"", 0, 0}, {"2.5", 3, 1}, {"#Q10", 4, 1}, {"#18\0\0\0\1\0\0\0\2", 11, 1}, {"#10", 3, 1},
 #if USE_DEVICE_DEPENDENT_ERROR_INFORMATION && USE_MEMORY_ALLOCATION_FREE
     {"-113,\"Undefined header;it's a \"\"b\"\"\"", 36, 2},         /* the text holds an apostrophe (left alone) and double quotes (doubled) */
@@ -37,7 +37,7 @@ static void emit(scpi_t * c) {
         case 4: SCPI_ResultBool(c, TRUE); break;
         case 5: SCPI_ResultText(c, "a\"b"); break;
         case 6: SCPI_ResultMnemonic(c, "XY"); break;
-        case 7: SCPI_ResultArbitraryBlock(c, "a;b", 3); break;
+        case 7: SCPI_ResultArbitraryBlock(c, "a;\n", 3); break;          /* the last data byte is the last byte of the line terminator */
         case 8: SCPI_ResultArbitraryBlockHeader(c, 3); SCPI_ResultArbitraryBlockData(c, "ab", 2); SCPI_ResultArbitraryBlockData(c, "c", 1); break;
         case 9: SCPI_ResultArrayInt16(c, a16, 3, SCPI_FORMAT_ASCII); break;
         case 10: SCPI_ResultArrayUInt8(c, a8, 0, SCPI_FORMAT_ASCII); break;
